@@ -6,6 +6,7 @@ import (
 	"go/types"
 	"math/big"
 	"sort"
+	"time"
 
 	"golang.org/x/tools/go/ssa"
 
@@ -14,9 +15,20 @@ import (
 
 // Bounds of the interpreter.  Exceeding one leaves the function undecided.
 const (
-	MaxDepth = 6       // inlining depth
-	MaxSteps = 400_000 // instructions per run
+	MaxDepth     = 6       // inlining depth
+	MaxSteps     = 200_000 // instructions per run
+	MaxFormTerms = 4096    // terms of one affine form (the largest form of the analysed code has about 1000)
+	MaxOpaque    = 64      // values that left the domain in one run (non-linear code is not followed further)
+	MaxVars      = 400_000 // variables of one World
+	MaxFails     = 50      // recorded failures of one World; the run is abandoned at the next one
 )
+
+// MaxRunTime bounds the wall-clock time of one run.
+const MaxRunTime = 10 * time.Second
+
+// DriverBudget bounds the wall-clock time of one Check* call: functions
+// reached after it has elapsed are reported as undecided (budget exceeded).
+const DriverBudget = 40 * time.Second
 
 const smallMax = 1024
 
@@ -77,9 +89,12 @@ type World struct {
 	// (NonAdjacentForm tabulation)
 	assign map[int]int8
 
-	steps int
-	cur   ssa.Instruction      // instruction being interpreted (positions of opaque symbols)
-	small [2*smallMax + 1]*Int // shared concrete words of small absolute value
+	steps    int
+	maxSteps int                  // instruction budget of one run (MaxSteps unless lowered)
+	opaques  int                  // opaque symbols created in the current run
+	deadline time.Time            // end of the wall-clock budget of the current run
+	cur      ssa.Instruction      // instruction being interpreted (positions of opaque symbols)
+	small    [2*smallMax + 1]*Int // shared concrete words of small absolute value
 
 	// hooks (spec-driven)
 	OnCall func(c *CallCtx) (ret Value, handled bool)
@@ -100,7 +115,7 @@ type CallCtx struct {
 
 // NewWorld creates an empty universe for a loaded configuration.
 func NewWorld(p *load.Program) *World {
-	w := &World{P: p, remMemo: map[string]*remInfo{}, failSeen: map[string]bool{}, Stats: map[string]int{}}
+	w := &World{P: p, remMemo: map[string]*remInfo{}, failSeen: map[string]bool{}, Stats: map[string]int{}, maxSteps: MaxSteps}
 	for _, pk := range p.Pkgs {
 		if pk.TypesSizes != nil {
 			w.sizes = pk.TypesSizes
@@ -114,6 +129,9 @@ func NewWorld(p *load.Program) *World {
 }
 
 func (w *World) newVar(vi VarInfo) int {
+	if len(w.vars) >= MaxVars {
+		panic(undecided{w.cur, fmt.Sprintf("budget exceeded: more than %d variables", MaxVars)})
+	}
 	w.vars = append(w.vars, vi)
 	return len(w.vars) - 1
 }
@@ -147,6 +165,12 @@ func (w *World) opaqueInt(rng Itv, why string) *Int {
 	if w.cur != nil {
 		pos, _ := w.where(w.cur)
 		why += " at " + pos
+	}
+	w.opaques++
+	if w.opaques > MaxOpaque {
+		// non-linear code: do not interpret thousands of instructions of limb
+		// arithmetic on values that already left the domain
+		panic(undecided{w.cur, fmt.Sprintf("budget exceeded: more than %d values left the affine/layout domain in one run (the latest: %s); the code is not linear and is not followed further", MaxOpaque, why)})
 	}
 	v := w.newVar(VarInfo{Kind: VOpaque, Name: fmt.Sprintf("opaque#%d (%s)", len(w.vars), why), Lo: rng.Lo, Hi: rng.Hi, Why: why})
 	return w.symInt(v)
@@ -191,7 +215,20 @@ func (w *World) fail(in ssa.Instruction, format string, args ...any) {
 		return
 	}
 	w.failSeen[key] = true
+	if len(w.Fails) >= MaxFails {
+		if !w.failSeen["suppressed"] {
+			w.failSeen["suppressed"] = true
+			w.Fails = append(w.Fails, Failure{Pos: pos, Fn: fn, Msg: fmt.Sprintf("more than %d failures: further failures suppressed, interpretation abandoned", MaxFails)})
+		}
+		panic(undecided{in, fmt.Sprintf("more than %d failures recorded: interpretation abandoned", MaxFails)})
+	}
 	w.Fails = append(w.Fails, Failure{Pos: pos, Fn: fn, Msg: msg})
+}
+
+// beginRun resets the per-run budgets.
+func (w *World) beginRun() {
+	w.steps, w.opaques = 0, 0
+	w.deadline = time.Now().Add(MaxRunTime)
 }
 
 // ---------------------------------------------------------------------------
@@ -271,6 +308,14 @@ func (w *World) rangeOfInt(f *Form) (Itv, bool) {
 func (w *World) mkInt(f *Form, arith *Itv) *Int {
 	if len(f.ts) == 0 && f.c.IsInt() {
 		return w.concInt(f.c.Num())
+	}
+	if len(f.ts) > MaxFormTerms {
+		w.fail(w.cur, "undecided: an affine form exceeds %d terms (the value is replaced by an opaque symbol)", MaxFormTerms)
+		r := w.rangeOf(f)
+		if arith != nil {
+			r = arith.Meet(r)
+		}
+		return w.opaqueInt(r, "form with too many terms")
 	}
 	r := w.rangeOf(f)
 	if arith != nil {
